@@ -81,7 +81,8 @@ MkScen(css, pol, b1) ==
   IN [sc0 EXCEPT !.progs = [i \in 1..Len(css) |-> [r \in 1..Rounds |-> call(i)]]]
 
 Combos == IF NT = 2 THEN {<<a, b>> : a \in CallSpecsA, b \in CallSpecsB}
-          ELSE {<<a, b, c>> : a \in CallSpecsA, b \in CallSpecsB, c \in CallSpecsB}
+          ELSE IF NT = 3 THEN {<<a, b, c>> : a \in CallSpecsA, b \in CallSpecsB, c \in CallSpecsB}
+          ELSE {<<a, b, c, e>> : a \in CallSpecsA, b \in CallSpecsB, c \in CallSpecsB, e \in CallSpecsB}
 
 ConcScens == {MkScen(cb, pol, b) : cb \in Combos, pol \in Policies, b \in ConcBodies}
 
@@ -193,7 +194,7 @@ MCScenTab0 == LET rs == RawScens IN
 MCScenTab == MCScenTab0
 MCInit == \E s \in {i \in 1..Len(ScenTab) : Mine(i)} : InitFor(s)
 
-LiveSpec == MCInit /\ [][Next]_vars /\ (\A t \in 1..3 : WF_vars(Step(t))) /\ WF_vars(Finish)
+LiveSpec == MCInit /\ [][Next]_vars /\ (\A t \in 1..4 : WF_vars(Step(t))) /\ WF_vars(Finish)
 
 \* edge printer: one schedule per generated successor; a successor in which the
 \* monitor records a new violation is also printed as a model-level
